@@ -186,7 +186,10 @@ Fixpoint dedupe (l : list seg) : list seg :=
               end
   end.
 
-(* all segments of the body; an escaped slash is legal only before a further segment *)
+(* a segment no component matches (one character from the empty class) *)
+Definition never_seg : seg := SGlob [GClass false []].
+
+(* all segments of the body *)
 Fixpoint read_segs (git : bool) (l : list chars) : option (option (list seg)) :=
   (* None = unsupported; Some None = pathspec raises; Some (Some ss) = fine *)
   match l with
@@ -201,7 +204,9 @@ Fixpoint read_segs (git : bool) (l : list chars) : option (option (list seg)) :=
                  end
       | SEscSlash x =>
           match r with
-          | [] => None
+          | [] => (* the line ends in a dangling backslash: pathspec raises; for git the
+                     pattern is valid and can never match (wildmatch meets the end of the pattern) *)
+                  if git then Some (Some [never_seg]) else Some None
           | _ => match read_segs git r with
                  | None => None
                  | Some None => Some None
@@ -250,7 +255,10 @@ Definition parse (git : bool) (raw : string) : presult :=
         if Ascii.eqb c1 "#" then PNone
         else if is_slash c1 && match rest1 with [] => true | _ => false end then PNone
         else if Ascii.eqb c1 "!"
-             then match rest1 with [] => PUnsup | _ => parse_body git true rest1 end
+             then match rest1 with
+                  | [] => if git then PNone else PErr     (* "!" alone: pathspec raises, git matches nothing *)
+                  | _ => parse_body git true rest1
+                  end
              else match s1 with [] => PUnsup | _ => parse_body git false s1 end
       end
     end
